@@ -70,8 +70,17 @@ def expiry (q : List (String × QV)) : Option Expiry :=
      | _ => none)
 end S
 
+def pinOptionKeys : List String :=
+  ["name", "mode", "replication-min", "replication-max", "replication", "shard-size", "user-allocations",
+   "expire-at", "expire-in", "pin-update", "origins"]
+
+/-- a pin option whose value is not even a well-formed query-string value -/
+def garbledOption (q : List (String × QV)) : Bool :=
+  q.any (fun p => p.2 == .garbled && pinOptionKeys.contains p.1)
+
 /-- the pin options the request carries; `none` = some carried value does not decode -/
 def carried (q : List (String × QV)) (md : List (Nat × Nat)) : Option Opts :=
+  if garbledOption q then none else
   assemble (nameParam (getq q "name")) (S.mode q) (S.factors q) (natParam (getq q "shard-size") 0)
     (S.ualloc q) (S.expiry q) (optCidParam (getq q "pin-update")) (natsParam (getq q "origins")) (metaOf md)
 
